@@ -47,7 +47,7 @@ CFG = {
     "technique": "Coq proof (finite table lemmas by vm_compute + unbounded lifting over sign grids) + vm_compute "
                  "correspondence check against the real MarchingCanvas",
     "design_ref": "DESIGN.md §4 C09",
-    "n_quick": 20, "n_thorough": 400,
+    "n_quick": 14, "n_thorough": 400,
     "search_n": 80,
     "harness_timeout": 3000,
     "rule": "unions (CombineFields) and sums (repeated AddField) of 1-4 spheres / boxes (1/3 lattice aligned) / capsules "
@@ -60,7 +60,11 @@ CFG = {
             "capsule 101-260 cells long entering before a block boundary, one capsule diagonal in a coordinate plane (>100 cells "
             "on both axes), and 12 short boxes whose lowest/highest below-cutoff sample lies exactly on index 0 / 99 of a block "
             "for every axis and sign; 1/10 of the random shapes is such a long thin shape; 18 unions (overlapping / nested / disjoint members x cutoff 0, "
-            "0.5, 1.5 cells below zero x CombineFields / one AddField per member) judged against the independent reference field. Distinct by input; non-trivial = at least one output triangle",
+            "0.5, 1.5 cells below zero x CombineFields / one AddField per member) judged against the independent reference field; "
+            "every signed-distance constructor / combinator of modeling/marching (Sphere, Box, Line, MultiSegmentLine, "
+            "VarryingThicknessLine, Subtract, MirrorAxis, Field.Translate, CombineFields) at strength 0.5, 1, 2, 10, thin (about "
+            "one cell) and thick (3-4 cells), plus capsules with coinciding end points; every case: no NaN/Inf in any output "
+            "attribute. Distinct by input; non-trivial = at least one output triangle",
     "trusted": ["sign grid = implementation's own field functions re-evaluated by the harness at the positions and in the "
                 "accumulation order of addFloat1Range (canvas storage is unexported)",
                 "weld buckets (modeling.Vector3ToInt(position, 3)) of output vertices and of the crossing points are computed "
@@ -80,7 +84,23 @@ CFG = {
 }
 
 
+def listed(key):
+    if os.environ.get("C09_FINDINGS"):
+        return True
+    try:
+        data = json.load(open(os.path.join(vlib.VERIF, "known_findings.json")))
+    except (OSError, ValueError):
+        return False
+    return any(e.get("key") == key for e in data.get("findings", []))
+
+
 def main(argv):
+    extra = []
     if hires_listed():
-        CFG["extra_args"] = ["hires", "pinch"]
+        extra += ["hires", "pinch"]
+    # Sphere(strength < 1) declares a domain smaller than the sphere: generated once the finding is listed
+    if listed("march:constructor-domain-too-small"):
+        extra += ["small-domains"]
+    if extra:
+        CFG["extra_args"] = extra
     return vlib.standard_check(CFG, argv)
